@@ -364,6 +364,29 @@ def check_sum_chain(ctx, fn, callee_name, label, needs_empty_exit):
                         return v[0] == "arg" and v[1] == 2
                     return False
                 good = len(inner) == 1 and (r == inner[0] or (r[0] == "call" and str(r[1]).endswith("Option::<T>::map") and r[2][0] == inner[0] and widening(r[2][1])))
+            if not oke and len(ps) == 2:
+                # `inner(..).map(widen)` written (or normalised) as a match: None => None, Some(v) => Some(widen(v))
+                okk = True
+                for conds_, r_ in ps:
+                    if r_ is None or len(conds_) != 1 or conds_[0][0][0] != "discr":
+                        okk = False
+                        break
+                    ic_ = _inner_call(conds_[0][0][1], callee_name)
+                    if len(ic_) != 1:
+                        okk = False
+                        break
+                    val_ = conds_[0][1]
+                    if r_[0] == "agg" and str(r_[1]).endswith("Option::None") and val_ == 0:
+                        continue
+                    if r_[0] == "agg" and str(r_[1]).endswith("Option::Some") and val_ in (1, None):
+                        v_ = strip_casts(r_[2].get("0", ("?",)))
+                        while v_[0] == "call" and (str(v_[1]).endswith("From::from") or str(v_[1]).endswith("From<T>>::from") or str(v_[1]).endswith("::into")):
+                            v_ = strip_casts(v_[2][0])
+                        if v_[0] == "field" and v_[2] == "0" and v_[1][0] == "downcast" and strip_casts(v_[1][1]) == ic_[0]:
+                            continue
+                    okk = False
+                    break
+                oke, good = okk, okk
             if not oke or not good:
                 ctx.violation(key0 + "|accumulator", site(fn, bi), "%s: the mapped value is not the inner Option score (widened): %s" % (label, show(ps[0][1])[:120] if ps else "?"))
                 return True
